@@ -2,7 +2,7 @@
 # dev aid: run every registered check on the current /repo tree. usage: tools/sweep.sh <tier> <seed>... (env PAR=3)
 tier="$1"; shift
 cd /verif || exit 2
-./check --setup >/dev/null 2>&1
+./check --setup >/dev/null 2>&1; cp .bin/sebufverif /var/tmp/sebufverif.refine.$$; VERIF_BIN=/var/tmp/sebufverif.refine.$$; export VERIF_BIN; trap "rm -f $VERIF_BIN" EXIT
 for seed in "$@"; do
   ls internal/checks/ >/dev/null
   printf '%s\n' C01 C02 C03 C04 C05 C06 C07 C08 C09 C10 C11 C12 C13 C14 C15 C16 C17 C18 C19 C20 | xargs -P "${PAR:-3}" -I{} sh -c '
